@@ -268,6 +268,8 @@ def run(ctx):
     shards = 16
     tasks = [{"seed": ctx.seed, "shard": i, "count": 14 if quick else 800} for i in range(shards)]
     ctx.map("checks.c05", "file_task", tasks, timeout=3000)
+    ctx.map("checks.c05", "file_task", [dict(t, shard=100 + t["shard"], count=max(3, t["count"] // 5)) for t in tasks[:4]], timeout=3000,
+            python_flags=("-O",))  # assertions off
     tasks = [{"seed": ctx.seed, "shard": i, "count": 6 if quick else 100} for i in range(shards)]
     ctx.map("checks.c05", "norm_task", tasks, timeout=3000)
     if ctx.counters.get("grid_cells_compared", 0) < 2000 or ctx.counters.get("cluster_points_checked", 0) < 10:
